@@ -33,6 +33,11 @@
 (*   AuxPreconditions       phonopy-qha / phonopy-calc-convert / the gnuplot  *)
 (*                          data paths run only on inputs that exist and     *)
 (*                          never overwrite an existing output               *)
+(*   MeshModifiersForwarded GAMMA_CENTER / MP_SHIFT / MESH_SYMMETRY / the    *)
+(*                          mesh numbers reach the mesh of EVERY consumer    *)
+(*                          (mesh file, DOS, PDOS, thermal properties,       *)
+(*                          projected ones, thermal displacements, matrices, *)
+(*                          cif, moment), stored or iterated                 *)
 (*   ModePrecedence         exactly one of thermal properties / thermal      *)
 (*                          displacements / matrices / projected DOS / DOS   *)
 (*                          / moment follows a mesh run                      *)
@@ -196,9 +201,29 @@ BCalls == IF S.mode \in BandModes THEN <<Call("run_band", "")>> ELSE <<>>
 BOut == IF S.mode \in BandModes THEN {IF S.band_hdf5 THEN "band.hdf5" ELSE "band.yaml"} ELSE {}
 
 IterMesh == S.tdisp \/ S.tdm   \* mesh is iterated, not stored nor written
+
+(* Which calculation consumes the sampling mesh, and the mesh modifiers in force.  Every   *)
+(* modifier applies to every consumer - also to the iterated mesh of the thermal           *)
+(* displacement modes: the run_mesh call of the machine names them all, the replay passes  *)
+(* them all to the library (GAMMA_CENTER, MP_SHIFT, MESH_SYMMETRY = .FALSE., the mesh      *)
+(* numbers; FMIN/FMAX and CUTOFF_FREQUENCY go to the consumer's own call).                 *)
+ConsumerS(s) ==
+  IF s.mode \notin MeshModes THEN "none"
+  ELSE IF s.tprop THEN (IF s.ptprop THEN "ptprop" ELSE "tprop")
+  ELSE IF s.tdisp THEN "tdisp"
+  ELSE IF s.tdm THEN (IF s.cif THEN "tdm_cif" ELSE "tdm")
+  ELSE IF s.pdos THEN "pdos"
+  ELSE IF s.dos THEN "dos"
+  ELSE IF s.moment THEN "moment"
+  ELSE "mesh"
+GridModsS(s) == (IF s.gc THEN {"gc"} ELSE {}) \cup (IF s.shift THEN {"shift"} ELSE {})
+                \cup (IF s.nomeshsym THEN {"nomeshsym"} ELSE {}) \cup {IF s.even THEN "even" ELSE "odd"}
+ModsS(s) == GridModsS(s) \cup (IF s.frange \/ s.cutfreq THEN {"range"} ELSE {})
+ModText(s) == (IF s.gc THEN ":gc" ELSE "") \o (IF s.shift THEN ":shift" ELSE "")
+              \o (IF s.nomeshsym THEN ":nomeshsym" ELSE "") \o (IF s.even THEN ":even" ELSE ":odd")
 MCalls ==
   IF S.mode \notin MeshModes THEN <<>>
-  ELSE <<Call("run_mesh", IF IterMesh THEN "iter" ELSE "")>>
+  ELSE <<Call("run_mesh", (IF IterMesh THEN "iter" ELSE "store") \o ModText(S))>>
        \o (IF SubMode = "none" THEN <<>> ELSE <<Call("run_" \o SubMode, "")>>)
 SubOut ==
   CASE SubMode = "tprop" -> {"thermal_properties.yaml"}
@@ -343,6 +368,19 @@ CommandDefaults ==
   /\ (Load /\ S.fccalc = "" /\ S.fcsym) => Solver = "symfc"
   /\ (S.fccalc # "") => Solver = S.fccalc
   /\ ("symmetrize_fc" \in Names) => (S.fcsym /\ Solver = "traditional")
+
+(* the mesh call carries exactly the grid modifiers in force, whichever calculation consumes the mesh *)
+MeshModifiersForwarded ==
+  \A i \in 1..Len(calls) : calls[i].name = "run_mesh" =>
+     calls[i].arg = (IF IterMesh THEN "iter" ELSE "store") \o ModText(S)
+
+ConsumerIsSubMode ==
+  (S.mode \in MeshModes) =>
+     LET c == ConsumerS(S) IN
+       /\ (c \in {"tprop", "ptprop"}) <=> (SubMode = "tprop")
+       /\ (c \in {"tdm", "tdm_cif"}) <=> (SubMode = "tdm")
+       /\ (c = "mesh") <=> (SubMode = "none")
+       /\ (c \in {"tdisp", "pdos", "dos", "moment"}) => (SubMode = c)
 
 SubCalls == {"run_tprop", "run_tdisp", "run_tdm", "run_pdos", "run_dos", "run_moment"}
 ModePrecedence ==
